@@ -108,6 +108,12 @@ func runChild(cfg hx.Config) error {
 		}
 		runScenario(r, rnd, sc, procs, "")
 	}
+	// cancellation from inside an enricher (outcome not determined: oracle only)
+	ncancel := cfg.N(300, 6000)
+	for i := 0; i < ncancel && !r.Stop() && !tooManyHangs(); i++ {
+		runCancelDuringEnrichment(r, rnd, genScenario(rnd, func(string) {}))
+	}
+	r.Notes["cancel_during_enrichment_scenarios"] = ncancel
 	// controlled schedules: the protocol machine must reproduce every transition
 	nproto := cfg.N(1500, 30000)
 	for i := 0; i < nproto && !r.Stop() && !tooManyHangs(); i++ {
